@@ -210,6 +210,36 @@ _c("C18",
    "Coq proof (parser/renderer round trip by induction over strings, parametric in generated message templates; induction over "
    "bound arguments) + model/implementation correspondence in vm_compute")
 
+_c("C10",
+   "PARTIAL. Coq theorems (Props/C10.v, closed under the global context) over executable models of the trusted-deserialization "
+   "classifier and mapping (Ser/Trusted.v) and of the fast serializer (Ser/Fast.v): on the flat fragment (primitive fields, document in "
+   "vset normal form under the fields' own names) the trusted path returns exactly the regular path's instance (C10_trusted_partial, "
+   "induction over the field list); for an ineligible class the flag changes nothing (C10_ineligible); from_trusted_data equals "
+   "construct when every value is a fixpoint of its vset chain (C10_from_trusted, uses Struct/Instance.construct); fast value "
+   "serialization equals regular for every declaration built from leaves, Array and Set (C10_fast_value_partial, induction on the "
+   "field); the full statement is a Definition with five refutation witnesses (it is false of the pinned tree). Nested classes, "
+   "Optional/Enum/SerializableField leaves, mappers and the class-level fast clause are decided by the differential: the model's "
+   "eligible / deser_regular / deser_trusted / construct / from_trusted / create_serializer / fast_ser are compared with typedpy "
+   "inside Coq, and real == and equal Serializer output between the two paths are evaluated on every generated case.",
+   "Trusted: Coq kernel + vm_compute; Trusted.v/Fast.v hand-written (nesting depth 2); date/Decimal (de)serialization and Map/Tuple/"
+   "Anything/OneOf kinds as per-case oracles; harness/c10gen.py; CPython.",
+   "Coq proof (path equality on the characterised safe fragment by induction, refutation witnesses) + model/implementation "
+   "correspondence in vm_compute")
+_c("C11",
+   "Coq theorems (Props/C11.v, closed under the global context) over the value universe and an executable model of Structure.__eq__, "
+   "__str__ and __hash__ (Struct/EqHash.v; hash = an uninterpreted function of the string): Python == on model values is reflexive, "
+   "symmetric and transitive across int/float/bool/Decimal, sets and dicts compared order-free (C11_value_equivalence, strong induction "
+   "with a pigeonhole lemma, duplicate-free containers as explicit hypothesis), instance equality likewise and iff field-wise equality "
+   "of the values read back (C11_equivalence, C11_eq_fieldwise); for canonical spellings equal instances have the same string hence "
+   "hash (C11_hash_char); copy/deepcopy equal with the same string, pickle under pickle_safe (C11_copy_eq); the unconditional "
+   "eq=>hash and pickle statements are Definitions refuted by witnesses (insertion order, numeric spelling, set vs frozenset, None vs "
+   "absent, lost internal state). inst_eq / inst_str / hash equality are compared with real ==, str, hash inside Coq on generated "
+   "pairs and triples; copies and their independence under mutation histories are checked on the implementation.",
+   "Trusted: Coq kernel + vm_compute; EqHash.v hand-written; number/str/enum repr and str hash as Section-variable oracles; deepcopy is "
+   "the identity in the value model (independence is decided on the implementation only).",
+   "Coq proof (equivalence-relation and hash-coherence theorems by strong induction over values) + model/implementation "
+   "correspondence in vm_compute")
+
 PENDING = {}
 
 def main():
